@@ -186,6 +186,29 @@ def catalogue(tier: str, seed: int, purpose: str = "all") -> list[dict]:
         for delta in range(2, 2**mu):
             for info in ("left", "right"):
                 out.append({"family": "bch", "mu": mu, "delta": delta, "info": info, "info_kind": info, "must_construct": delta in must})
+    # cyclic and BCH codes with index-list information sets (ascending and permuted): any k-sublist is accepted,
+    # the identity goes to those positions in the given order
+    listed = [("cyclic", 7, 0b1011), ("cyclic", 15, 0b10011), ("cyclic", 15, 0b111010001), ("bch", 3, 3), ("bch", 4, 5), ("bch", 4, 7)]
+    if not q:
+        listed += [("cyclic", 9, 0b1001001), ("cyclic", 21, 0b1010111), ("cyclic", 15, 0b11111), ("bch", 5, 5), ("bch", 5, 7), ("bch", 3, 7)]
+    for fam, a, b in listed:
+        if fam == "cyclic":
+            n, k = a, a - (b.bit_length() - 1)
+        else:
+            n = 2**a - 1
+            k = n - (gf2m_bch_degree(a, b))
+        for rep in range(1 if q else 2):
+            srt = sorted(rng.sample(range(n), k))
+            perm = srt[:]
+            rng.shuffle(perm)
+            if perm == srt and k > 1:
+                perm = srt[::-1]
+            for info, label in ((srt, "sorted_list"), (perm, "permuted_list")):
+                if fam == "cyclic":
+                    h = pdivmod((1 << n) | 1, b)[0]
+                    out.append({"family": "cyclic", "n": n, "g": b, "h": h, "src": "g", "info": info, "info_kind": label})
+                else:
+                    out.append({"family": "bch", "mu": a, "delta": b, "info": info, "info_kind": label, "must_construct": True})
     if q:
         # the larger fields (own modulus table entries): a few textbook design distances each
         for mu, deltas in ((5, (3, 5, 7)), (6, (3, 5, 7))):
@@ -222,6 +245,86 @@ def catalogue(tier: str, seed: int, purpose: str = "all") -> list[dict]:
     for i, s in enumerate(out):
         s["id"] = i
     return out
+
+
+def nk(spec: dict):
+    """(n, k) of a catalogue entry, computed without building it."""
+    f = spec["family"]
+    if f in ("generic",):
+        return spec["n"], spec["k"]
+    if f == "systematic":
+        return len(spec["P"]) + len(spec["P"][0]), len(spec["P"])
+    if f == "hamming":
+        mu = spec["mu"]
+        return 2**mu - (0 if spec["extended"] else 1), 2**mu - mu - 1
+    if f == "golay":
+        return (24 if spec["extended"] else 23), 12
+    if f == "repetition":
+        return spec["n"], 1
+    if f == "spc":
+        return spec["k"] + 1, spec["k"]
+    if f == "rm":
+        from math import comb
+
+        return 2 ** spec["m"], sum(comb(spec["m"], i) for i in range(spec["r"] + 1))
+    if f == "cyclic":
+        return spec["n"], spec["n"] - (spec["g"].bit_length() - 1)
+    if f == "cyclic_std":
+        return {"Hamming(7,4)": (7, 4), "Simplex(7,3)": (7, 3), "BCH(15,7)": (15, 11), "BCH(15,5)": (15, 5), "Golay(23,12)": (23, 12)}[spec["name"]]
+    if f == "bch":
+        from vk.oracles import gf2m
+
+        nn = 2 ** spec["mu"] - 1
+        cos = set()
+        for e in range(1, spec["delta"]):
+            cos.update(gf2m.cyclotomic_coset(e, nn))
+        return nn, nn - len(cos)
+    if f == "rs":
+        nn = 2 ** spec["mu"] - 1
+        return nn, nn - spec["delta"] + 1
+    if f == "ldpc":
+        H = gf2.rows_from_matrix(spec["H"])
+        nn = len(spec["H"][0])
+        return nn, nn - gf2.rank(H)
+    raise ValueError(f)
+
+
+def big_groups(tier: str, seed: int) -> list[dict]:
+    """Objects wider than a 64-bit machine word, in groups of same-shaped codes that one process builds and uses
+    one after the other (group specs: family 'group', members = ordinary specs; ids from 100000)."""
+    rng = random.Random(f"catalogue-big-{tier}-{seed}")
+    groups = [
+        [
+            {"family": "hamming", "mu": 7, "extended": False, "info": "left", "info_kind": "left"},
+            {"family": "bch", "mu": 7, "delta": 3, "info": "left", "info_kind": "left", "must_construct": True},
+            {"family": "hamming", "mu": 7, "extended": False, "info": "right", "info_kind": "right"},
+            {"family": "bch", "mu": 7, "delta": 3, "info": "right", "info_kind": "right", "must_construct": True},
+            {"family": "bch", "mu": 7, "delta": 5, "info": "left", "info_kind": "left", "must_construct": True},
+        ],
+        [{"family": "generic", "k": 66, "n": 72, "G": random_full_rank(rng, 66, 72, dense=True)} for _ in range(2)]
+        + [{"family": "systematic", "P": random_matrix(rng, 70, 10), "info": info, "info_kind": info} for info in ("left", "left", "right")],
+    ]
+    out = []
+    nid = 100000
+    for gi, members in enumerate(groups):
+        for m in members:
+            m["id"] = nid
+            nid += 1
+        out.append({"family": "group", "members": members, "id": nid + 1000 + gi})
+    return out
+
+
+def gf2m_bch_degree(mu: int, delta: int) -> int:
+    """Degree of the narrow-sense primitive BCH generator polynomial: size of the union of the cyclotomic cosets
+    of 1..delta-1 modulo 2^mu-1 (independent of kaira)."""
+    n = 2**mu - 1
+    roots = set()
+    for i in range(1, delta):
+        x = i % n
+        while x not in roots:
+            roots.add(x)
+            x = (2 * x) % n
+    return len(roots)
 
 
 def bose_distances(mu: int) -> list[int]:
